@@ -12,16 +12,25 @@ impl<A> It<A> {
     pub uninterp spec fn seq(&self) -> Seq<A>;
     pub uninterp spec fn announced(&self) -> Option<nat>;
     pub uninterp spec fn trusted(&self) -> bool;
+    // Some(v): after seq() the iterator yields v forever (std::iter::repeat); None: it ends after seq()
+    pub uninterp spec fn forever(&self) -> Option<A>;
+}
+// the first k items of an iterator (finite part, then the repeated value)
+pub open spec fn first_k<A>(s: Seq<A>, f: Option<A>, k: nat) -> Seq<A> {
+    match f {
+        Some(v) => Seq::new(k, |i: int| if i < s.len() { s[i] } else { v }),
+        None => s.take(min_nat(k, s.len()) as int),
+    }
 }
 
 // a trusted-length iterator keeps its promise: it yields exactly as many items as it announces (C09)
 pub open spec fn honest<A>(it: &It<A>) -> bool {
-    it.trusted() ==> it.announced() == Some(it.seq().len())
+    it.trusted() ==> it.announced() == Some(it.seq().len()) && it.forever().is_none()
 }
 
 pub trait TIter<T>: Vec1View<T> {
     fn titer(&self) -> (it: It<T>)
-        ensures it.seq() == self.view(), it.announced() == Some(self.view().len()), it.trusted();
+        ensures it.seq() == self.view(), it.announced() == Some(self.view().len()), it.trusted(), it.forever().is_none();
 }
 
 pub open spec fn min_nat(a: nat, b: nat) -> nat { if a <= b { a } else { b } }
@@ -45,7 +54,8 @@ impl<A> It<A> {
     #[verifier::external_body]
     pub fn take(self, k: usize) -> (r: It<A>)
         ensures
-            r.seq() == self.seq().take(min_nat(k as nat, self.seq().len()) as int),
+            r.seq() == first_k(self.seq(), self.forever(), k as nat),
+            r.forever().is_none(),
             r.announced() == opt_min(Some(k as nat), self.announced()),
             r.trusted() == self.trusted(),
     { unimplemented!() }
@@ -53,7 +63,7 @@ impl<A> It<A> {
     #[verifier::external_body]
     pub fn skip(self, k: usize) -> (r: It<A>)
         ensures
-            r.seq() == self.seq().skip(min_nat(k as nat, self.seq().len()) as int),
+            r.seq() == self.seq().skip(min_nat(k as nat, self.seq().len()) as int), r.forever() == self.forever(),
             r.announced() == (match self.announced() { Some(a) => Some(if k as nat <= a { (a - k) as nat } else { 0nat }), None => None }),
             r.trusted() == self.trusted(),
     { unimplemented!() }
@@ -61,14 +71,17 @@ impl<A> It<A> {
     #[verifier::external_body]
     pub fn chain(self, o: It<A>) -> (r: It<A>)
         ensures
-            r.seq() == self.seq() + o.seq(),
+            self.forever().is_none() ==> r.seq() == self.seq() + o.seq() && r.forever() == o.forever(),
+            self.forever().is_some() ==> r.seq() == self.seq() && r.forever() == self.forever(),
             r.announced() == opt_add(self.announced(), o.announced()),
             r.trusted() == (self.trusted() && o.trusted()),
     { unimplemented!() }
 
     #[verifier::external_body]
     pub fn zip<B>(self, o: It<B>) -> (r: It<(A, B)>)
+        requires self.forever().is_none() && o.forever().is_none(),    // the model covers finite zips only (all that tevec builds)
         ensures
+            r.forever().is_none(),
             r.seq() == Seq::new(min_nat(self.seq().len(), o.seq().len()), |i: int| (self.seq()[i], o.seq()[i])),
             r.announced() == opt_min(self.announced(), o.announced()),
             r.trusted() == (self.trusted() && o.trusted()),
@@ -78,7 +91,7 @@ impl<A> It<A> {
     pub fn map<B, F: Fn(A) -> B>(self, f: F) -> (r: It<B>)
         requires forall|x: A| #[trigger] f.requires((x,)),
         ensures
-            r.seq().len() == self.seq().len(),
+            r.seq().len() == self.seq().len(), self.forever().is_none() ==> r.forever().is_none(),
             forall|i: int| 0 <= i < self.seq().len() ==> f.ensures((self.seq()[i],), #[trigger] r.seq()[i]),
             r.announced() == self.announced(),
             r.trusted() == self.trusted(),
@@ -86,25 +99,102 @@ impl<A> It<A> {
 
     #[verifier::external_body]
     pub fn rev(self) -> (r: It<A>)
-        ensures r.seq() == self.seq().reverse(), r.announced() == self.announced(), r.trusted() == self.trusted(),
+        requires self.forever().is_none(),
+        ensures r.seq() == self.seq().reverse(), r.announced() == self.announced(), r.trusted() == self.trusted(), r.forever().is_none(),
     { unimplemented!() }
 
     // tea-core trusted.rs: TrustIter::new(iter, len) / ToTrustIter::to_trust(len) — an UNSAFE promise (R12).
     // The promise must be true: this precondition is the C09 obligation at every construction site.
     #[verifier::external_body]
     pub fn to_trust(self, len: usize) -> (r: It<A>)
-        requires self.seq().len() == len,          // #C09 announced_length_is_exact
-        ensures r.seq() == self.seq(), r.announced() == Some(len as nat), r.trusted(),
+        requires self.seq().len() == len && self.forever().is_none(),          // #C09 announced_length_is_exact
+        ensures r.seq() == self.seq(), r.announced() == Some(len as nat), r.trusted(), r.forever().is_none(),
+    { unimplemented!() }
+
+    #[verifier::external_body]
+    pub fn enumerate(self) -> (r: It<(usize, A)>)
+        requires self.forever().is_none(),
+        ensures
+            r.seq() == Seq::new(self.seq().len(), |i: int| (i as usize, self.seq()[i])), r.forever().is_none(),
+            r.announced() == self.announced(), r.trusted() == self.trusted(),
+    { unimplemented!() }
+
+    // Filter / FilterMap are NOT TrustedLen (tea-core trusted.rs): their size_hint upper bound is only an upper bound
+    #[verifier::external_body]
+    pub fn filter_map<B, F: Fn(A) -> Option<B>>(self, f: F) -> (r: It<B>)
+        requires self.forever().is_none(), forall|x: A| #[trigger] f.requires((x,)),
+        ensures
+            !r.trusted(), r.forever().is_none(), r.announced() == self.announced(),
+            filter_mapped(self.seq(), r.seq(), |x: A, y: Option<B>| f.ensures((x,), y)),
     { unimplemented!() }
 }
+// r is s mapped through the relation p, keeping the Some results in order
+pub open spec fn filter_mapped<A, B>(s: Seq<A>, r: Seq<B>, p: spec_fn(A, Option<B>) -> bool) -> bool
+    decreases s.len()
+{
+    if s.len() == 0 { r.len() == 0 } else {
+        (p(s.last(), None) && filter_mapped(s.drop_last(), r, p))
+        || (r.len() > 0 && p(s.last(), Some(r.last())) && filter_mapped(s.drop_last(), r.drop_last(), p))
+    }
+}
+
+// std::iter::repeat(v): yields v forever (R12)
+#[verifier::external_body]
+pub fn repeat<A>(v: A) -> (r: It<A>)
+    ensures r.seq().len() == 0, r.forever() == Some(v), r.announced().is_none(),
+{ unimplemented!() }
 
 #[verifier::external_body]
 pub fn repeat_n<A>(v: A, k: usize) -> (r: It<A>)
-    ensures r.seq() == Seq::new(k as nat, |i: int| v), r.announced() == Some(k as nat), r.trusted(),
+    ensures r.seq() == Seq::new(k as nat, |i: int| v), r.announced() == Some(k as nat), r.trusted(), r.forever().is_none(),
 { unimplemented!() }
 
 #[verifier::external_body]
 pub fn trust_iter_new<A>(it: It<A>, len: usize) -> (r: It<A>)
-    requires it.seq().len() == len,                // #C09 announced_length_is_exact
-    ensures r.seq() == it.seq(), r.announced() == Some(len as nat), r.trusted(),
+    requires it.seq().len() == len && it.forever().is_none(),                // #C09 announced_length_is_exact
+    ensures r.seq() == it.seq(), r.announced() == Some(len as nat), r.trusted(), r.forever().is_none(),
 { unimplemented!() }
+
+// ---- containers <-> iterators
+pub trait IntoIt<A>: Sized {
+    // Vec::into_iter() (R12: `.into_iter()` on a Vec -> `.into_it()`)
+    fn into_it(self) -> (r: It<A>);
+}
+impl<A> IntoIt<A> for Vec<A> {
+    #[verifier::external_body]
+    fn into_it(self) -> (r: It<A>)
+        ensures r.seq() == self@, r.announced() == Some(self@.len()), r.trusted(), r.forever().is_none(),
+    { unimplemented!() }
+}
+impl<A> It<A> {
+    // the trusted collectors (tea-core trusted.rs collect_trusted_to_vec / Vec1::collect_from_trusted): allocate
+    // `announced` slots, write one per item, set_len(announced).  Sound only for an honest iterator: the C09/C10 obligation.
+    #[verifier::external_body]
+    pub fn collect_trusted_vec1(self) -> (r: Vec<A>)
+        requires honest(&self) && self.trusted(),          // #C09,C10 collected_iterator_keeps_its_promise
+        ensures r@ == self.seq(),
+    { unimplemented!() }
+}
+// A-SORT: tevec's Vec1::sort_unstable_by / slice::select_nth_unstable_by on a Vec, by contract
+pub open spec fn cmp_total<A, F: Fn(&A, &A) -> core::cmp::Ordering>(v: Seq<A>, f: F) -> bool {
+    forall|i: int, j: int| 0 <= i < v.len() && 0 <= j < v.len() ==> #[trigger] f.requires((&v[i], &v[j]))
+}
+pub trait VecSort<A>: Sized {
+    spec fn sview(&self) -> Seq<A>;
+    fn sort_unstable_by<F: Fn(&A, &A) -> core::cmp::Ordering>(&mut self, f: F) -> (r: TResult<()>)
+        requires cmp_total(old(self).sview(), f),                 // the comparator may be called on any pair of elements
+        ensures r.is_ok(), final(self).sview().len() == old(self).sview().len(), final(self).sview().to_multiset() == old(self).sview().to_multiset(),
+            forall|i: int| 0 <= i < final(self).sview().len() ==> old(self).sview().contains(#[trigger] final(self).sview()[i]);     // a permutation: nothing new appears
+    fn select_nth_unstable_by<F: Fn(&A, &A) -> core::cmp::Ordering>(&mut self, kth: usize, f: F)
+        requires kth < old(self).sview().len(),                   // #select_nth_index_in_range (std panics otherwise)
+            cmp_total(old(self).sview(), f),
+        ensures final(self).sview().len() == old(self).sview().len(), final(self).sview().to_multiset() == old(self).sview().to_multiset(),
+            forall|i: int| 0 <= i < final(self).sview().len() ==> old(self).sview().contains(#[trigger] final(self).sview()[i]);
+}
+impl<A> VecSort<A> for Vec<A> {
+    open spec fn sview(&self) -> Seq<A> { self@ }
+    #[verifier::external_body]
+    fn sort_unstable_by<F: Fn(&A, &A) -> core::cmp::Ordering>(&mut self, f: F) -> (r: TResult<()>) { unimplemented!() }
+    #[verifier::external_body]
+    fn select_nth_unstable_by<F: Fn(&A, &A) -> core::cmp::Ordering>(&mut self, kth: usize, f: F) { unimplemented!() }
+}
